@@ -1,6 +1,108 @@
-/-! `pmodel gas`: line-protocol driver (stub — replaced by the owner of this model). -/
-namespace Driver.Gas
+import PhreeqcVerif.Model.Util
+import PhreeqcVerif.Model.NumOps
+import PhreeqcVerif.Model.PengRobinson
+import PhreeqcVerif.Model.GasPhase
+/-! `pmodel gas`: the Float instance of the Peng–Robinson model on the op list the C++ harness `ph_gas` executes.
 
-def run : IO Unit := IO.eprintln "pmodel gas: not implemented"
+    clear                                         forget gases and binary parameters
+    gas <hexname> <tc> <pc> <omega>               database constants (taken in-process from the real engine)
+    kij <hexname1> <hexname2> <k>                 one entry of `gas_binary_parameters`
+    pr <iterations> <P> <TK> <Vm> <n> {<hexname> <moles>}*n      `calc_PR(phase_ptrs, P, TK, V_m)`
+         -> R <vm> <bsum> <asum> {<x> <pr_p> <pr_phi> <pr_si_f>}*n   |   R early
+    eos <P> <TK> <Vm> <n> {<hexname> <moles>}*n   independent EOS evaluation for the relations on real runs
+         -> E <P(Vm)> <Vm(P)> <disct(P)> <branch> {<x> <lnphi raw at (P,Vm)> <z-B>}*n
+    ideal <n> <TK> <V>  -> I <P>
+doubles are 16 hex digits of the bit pattern. -/
+namespace Driver.Gas
+open PhreeqcVerif PhreeqcVerif.Util PhreeqcVerif.PR
+
+/-- the code takes cube roots with `pow(x, 0.33333333333333333)` -/
+def codeFns : TransFns Float := { floatFns with cbrt := fun x => Float.pow x 0.33333333333333333 }
+
+local instance (priority := high) codeOps : NumOps Float := { ofRat := floatOfRat, fns := codeFns }
+
+structure St where
+  gases : List (Gas Float) := []
+  tab : List ((String × String) × Float) := []
+
+def hx (f : Float) : String := hexOfFloat f
+
+def parsePairs : List String → Option (List (String × Float))
+  | [] => some []
+  | n :: m :: rest =>
+    match unhexStr n, floatOfHex m, parsePairs rest with
+    | some n, some m, some r => some ((n, m) :: r)
+    | _, _, _ => none
+  | _ => none
+
+def findGases (st : St) (names : List String) : Option (List (Gas Float)) :=
+  names.mapM fun n => st.gases.find? (fun g => g.name == n)
+
+def doPR (st : St) (iter : Int) (p tk vm : Float) (pairs : List (String × Float)) : String :=
+  match findGases st (pairs.map (·.1)) with
+  | none => "R unknown-gas"
+  | some gs =>
+    match calcPR st.tab (decide (iter > 0)) gs (pairs.map (·.2)) p tk vm with
+    | none => "R early"
+    | some o =>
+      let ln10 : Float := Float.log 10.0
+      let cs := o.comps.map fun c =>
+        if isZero c.x then s!" {hx c.x} {hx 0.0} {hx 1.0} {hx 0.0}"
+        else s!" {hx c.x} {hx c.p} {hx (Float.exp c.lnphi)} {hx (c.lnphi / ln10)}"
+      s!"R {hx o.vm} {hx o.bsum} {hx o.asum}" ++ String.join cs
+
+def doEOS (st : St) (p tk vm : Float) (pairs : List (String × Float)) : String :=
+  match findGases st (pairs.map (·.1)) with
+  | none => "E unknown-gas"
+  | some gs =>
+    match fractions (pairs.map (·.2)) with
+    | none => "E early"
+    | some xs =>
+      let cs := comps tk gs xs
+      let m := mix (binaryFactor st.tab) cs
+      let rt : Float := gasR * tk
+      let c := cubicOf rt m.bsum m.asum p
+      let per := (cs.zip m.aa2).map fun (ci, aa2) =>
+        let z := p * vm / rt
+        let bb := m.bsum * p / rt
+        s!" {hx ci.x} {hx (lnPhiRaw rt m.bsum m.asum p vm ci.b aa2)} {hx (z - bb)}"
+      s!"E {hx (prP rt m.bsum m.asum vm)} {hx (vmOfP rt m.bsum m.asum p)} {hx c.disct} {c.branch}" ++ String.join per
+
+def step (st : St) (line : String) : St × Option String :=
+  match words line with
+  | ["clear"] => ({}, none)
+  | ["gas", n, tc, pc, om] =>
+    match unhexStr n, floatOfHex tc, floatOfHex pc, floatOfHex om with
+    | some n, some tc, some pc, some om => ({ st with gases := st.gases ++ [⟨n, tc, pc, om⟩] }, none)
+    | _, _, _, _ => (st, some "bad-op")
+  | ["kij", a, b, k] =>
+    match unhexStr a, unhexStr b, floatOfHex k with
+    | some a, some b, some k => ({ st with tab := st.tab ++ [((a, b), k)] }, none)
+    | _, _, _ => (st, some "bad-op")
+  | "pr" :: it :: p :: tk :: vm :: _n :: rest =>
+    match it.toInt?, floatOfHex p, floatOfHex tk, floatOfHex vm, parsePairs rest with
+    | some it, some p, some tk, some vm, some pairs => (st, some (doPR st it p tk vm pairs))
+    | _, _, _, _, _ => (st, some "bad-op")
+  | "eos" :: p :: tk :: vm :: _n :: rest =>
+    match floatOfHex p, floatOfHex tk, floatOfHex vm, parsePairs rest with
+    | some p, some tk, some vm, some pairs => (st, some (doEOS st p tk vm pairs))
+    | _, _, _, _ => (st, some "bad-op")
+  | ["ideal", n, tk, v] =>
+    match floatOfHex n, floatOfHex tk, floatOfHex v with
+    | some n, some tk, some v => (st, some s!"I {hx (GasPhase.idealP n tk v)}")
+    | _, _, _ => (st, some "bad-op")
+  | [] => (st, none)
+  | _ => (st, some "bad-op")
+
+def run : IO Unit := do
+  let lines ← readLines (← IO.getStdin)
+  let out ← IO.getStdout
+  let mut st : St := {}
+  for l in lines do
+    let (st', o) := step st l
+    st := st'
+    match o with
+    | some s => out.putStrLn s
+    | none => pure ()
 
 end Driver.Gas
